@@ -40,6 +40,8 @@ def step (st : St) (toks : List String) : St × String :=
   match toks with
   | ["range", c, h] => (st, rangeOp c h)
   | ["srange", c, h] => (st, rangeOp c h)
+  -- one static.Modifier instance, one path; the file has content `c` now (it may have had another one before)
+  | ["sfile", c, h] => (st, rangeOp c h)
   -- several responses in flight from one modifier instance: each is what it would be alone, in whatever order the bodies are read
   | ["hold", _kind, c, h] => (st ++ [(c, h)], "held")
   | ["drain", _order] => ([], if st.isEmpty then "-" else " | ".intercalate (st.map fun p => rangeOp p.1 p.2))
